@@ -32,7 +32,7 @@ TRUSTED = ["Gen/Tables.lean + Gen/Kernels.lean regenerated from /repo by tools/t
            "Spec/Tables.lean reference tables (NCBI table 1/11, IUPAC) cross-checked against Biopython by the bio.* operations"]
 ASSUMPTIONS = ["codon / alphabet texts are ASCII (str.upper() = per-character ASCII upper-casing)",
                "Python ints are unbounded; % with divisor 3 is floor-mod = Lean Int.emod"]
-MODEL_OPS = {"hist", "translate", "syn", "is_stop", "is_strict", "is_canon", "is_start", "aacodons", "complement", "complement2",
+MODEL_OPS = {"hist", "revcomp", "translate", "syn", "is_stop", "is_strict", "is_canon", "is_start", "aacodons", "complement", "complement2",
              "alphabet", "shift", "to_phase", "to_frame", "frame_int", "phase_int", "frame_val", "phase_val",
              "strand_rev", "strand_rel", "strand_sym", "strand_tosym", "strand_int", "strand_val", "strand_lt",
              "biotype", "enum", "bio.std", "bio.complement", "bio.starts", "bio.stops"}
@@ -47,6 +47,12 @@ PRINTABLE = [chr(i) for i in range(33, 127)]
 
 def impl(line):
     return impl_tab_op(line)
+
+
+def lean_line(line):
+    """`fhist` = `hist` played after a registry-saturating history on the implementation side (impl_tables._flood);
+    the model and the specification are functions of the texts only"""
+    return "hist" + line[5:] if line.startswith("fhist ") else line
 
 
 def nontrivial(line, ans):
@@ -95,6 +101,11 @@ def hist_cases(run, strict64):
         yield f"hist {h} 0"
     for bad in ("AT", "ATGA", "AXG", "seq:ATE", "at-"):
         yield f"hist {bad} 1 ATG"
+    # the same histories after a registry-saturating prefix (every triplet in four spellings + refused texts)
+    for h in ["ATG", "TTG", "CTG", "GTG", "ATA", "TAA", "TGA", "AUG", "atg", "seq:ATG", "NNN", "RAY", "GGG", "ACN"]:
+        run.count("hist:flooded")
+        yield f"fhist {h} 0"
+        yield f"fhist {h} 2 {h[4:] if h.startswith('seq:') else h} ATG"
 
 
 def cases(run):
@@ -140,6 +151,17 @@ def cases(run):
             yield f"complement2 {name} {ch}"
     for name in ALPHABETS + ["NT_BOGUS", "nt_strict"]:
         yield f"alphabet {name}"
+    # reverse complement of TEXTS: every pair of letters (exhaustive), the empty text, random longer texts
+    pool = IUPAC + IUPAC.lower() + "-*X"
+    for name in [a for a in ALPHABETS if a.startswith("NT_")] + ["AA", "NT_BOGUS"]:
+        yield f"revcomp {name} _"
+        for a in pool:
+            for b in pool:
+                yield f"revcomp {name} {a}{b}"
+        for _ in range(150 if run.tier == "quick" else 3000):
+            n = rng.choice([3, 3, 4, 5, 8, 13])
+            letters = rng.choice([pool, "ACGU", "ACGTU", "acgu", "ACGTN", "AUN", IUPAC])
+            yield f"revcomp {name} " + "".join(rng.choice(letters) for _ in range(n))
     for ch in IUPAC + IUPAC.lower() + "-":
         yield f"bio.complement {ch}"
     yield "bio.starts 1"
